@@ -260,6 +260,7 @@ impl Property for C03 {
                     if zero_tied {
                         ctx.hit("rt_zero_delay_followup_tied_with_older_event");
                     }
+                    ctx.begin(|| json!({"layer": "runtime", "start_ns": start, "program": prog.to_json()}));
                     match check_rt(start, &prog) {
                         Ok(o) => {
                             ctx.outcome(o);
@@ -294,6 +295,7 @@ impl Property for C03 {
                     ctx.hit("net_sequence_with_same_instant_pair");
                     ctx.out.nontrivial += 1;
                 }
+                ctx.begin(|| json!({"layer": "net", "len": len, "code": code, "actions": format!("{seq:?}")}));
                 match check_net(&seq) {
                     Ok(o) => ctx.outcome(o),
                     Err(d) => ctx.violation("net-tie-order", || json!({"layer": "net", "len": len, "code": code, "actions": format!("{seq:?}")}), d),
